@@ -69,7 +69,38 @@ def clock_vectors(c):
         raise Broken("clock binding self-test failed")
 
 
+def unbounded_clock(c):
+    """ClockInd.tla with Apalache: an inductive invariant of the clock object without bounds (any number of steps, any witnessed
+    value), the step properties from every state satisfying it, and a witness (a Witness that does not reach the file) that must
+    fail. Skipped with a note when apalache-mc is not installed: the bounded TLC runs remain."""
+    import shutil
+    import subprocess
+    exe = shutil.which("apalache-mc")
+    if not exe:
+        c.notes.append("apalache-mc not found: the unbounded clock invariant was not checked in this run")
+        return
+    d = os.path.join(c.scratch, "apalache")
+    os.makedirs(d, exist_ok=True)
+    shutil.copy(os.path.join(c.specdir(), "ClockInd.tla"), d)
+    runs = [("Init", "Next", "IndInv", 0, True), ("InitIndInv", "Next", "IndInv", 1, True), ("InitIndInv", "Next", "DominatesSeen", 1, True),
+            ("InitIndInv", "Next", "Monotone", 1, True), ("InitIndInv", "Next", "IncStrict", 1, True), ("InitIndInv", "NextBad", "IndInv", 1, False)]
+    res = []
+    for init, nxt, inv, length, want_ok in runs:
+        try:
+            p = subprocess.run([exe, "check", "--init=" + init, "--next=" + nxt, "--inv=" + inv, "--length=%d" % length, "--out-dir=" + os.path.join(d, "out"), "ClockInd.tla"],
+                               cwd=d, stdout=subprocess.PIPE, stderr=subprocess.STDOUT, text=True, timeout=600)
+        except subprocess.TimeoutExpired:
+            raise Broken("apalache timed out on %s/%s" % (init, inv))
+        ok = "EXITCODE: OK" in p.stdout
+        res.append({"init": init, "next": nxt, "inv": inv, "length": length, "ok": ok})
+        if ok != want_ok:
+            raise Broken("apalache: init=%s next=%s inv=%s length=%d: expected %s\n%s" % (init, nxt, inv, length, "no error" if want_ok else "a counterexample (vacuity guard)", p.stdout[-1500:]))
+    c.cov["apalache_runs"] = res
+    c.log("apalache: IndInv inductive for the unbounded clock, step properties hold, witness fails (%d runs)" % len(res))
+
+
 def run(c):
+    unbounded_clock(c)
     clock_vectors(c)
     gb.exhaustive(c, INV + ["MergeTruthful"], restart=True, loaderless=False)
     c01.run(c, inv=["ClockDominates", "AllReadable"], bind=(False, False, True), sched_fn=schedules, mut=mutate, cls=classify,
